@@ -47,7 +47,7 @@ ASSUMPTIONS = [
     "verification.is_nip05_verified needs nostr_bot (absent) and is not exercised",
 ]
 MIN_NONTRIVIAL = {"quick": 150, "thorough": 600}
-REQUIRED_COUNTERS = ["contract.evaluations", "pipeline.events", "lists.builds", "race.refreshes", "race.checks_during_refresh"]
+REQUIRED_COUNTERS = ["contract.evaluations", "pipeline.events", "pipeline.respelled_keys", "lists.builds", "race.refreshes", "race.checks_during_refresh"]
 SHARD_TIMEOUT = {"quick": 600, "thorough": 3200}
 NOW = 1700000000
 
@@ -187,7 +187,21 @@ def boundary_events(k1, k2, svc):
     out.append(("hellthread-kind4", ref.make_event(k1, kind=5, created_at=T, tags=[["p", "%064x" % i] for i in range(9)], content="h4")))
     out.append(("fake-service", ref.make_event(k1, kind=31494, created_at=T, tags=[["d", "x"]], content="s")))
     out.append(("pow-8", ref.make_event(k1, kind=1, created_at=T, content="pow", id_prefix="00")))
+    # the same 32-byte keys in another SPELLING (id computed and signed over that spelling): a list of keys
+    # must not be evaded by upper-case hex digits - and such an event is not canonical NIP-01 anyway
+    for lab, key, spell in (("deny-listed-key-upper-case", k2, str.upper), ("deny-listed-key-one-upper-digit", k2, one_upper),
+                            ("allow-listed-key-upper-case", k1, str.upper)):
+        pk = spell(key.pk)
+        eid = ref.compute_id(pk, T, 1, [], "spelled " + lab)
+        out.append((lab, {"id": eid, "pubkey": pk, "created_at": T, "kind": 1, "tags": [], "content": "spelled " + lab, "sig": key.sign(bytes.fromhex(eid))}))
     return out
+
+
+def one_upper(pk):
+    for i, ch in enumerate(pk):
+        if ch in "abcdef":
+            return pk[:i] + ch.upper() + pk[i + 1:]
+    return pk
 
 
 async def run_broken_validator(backend, counters):
@@ -275,6 +289,11 @@ async def run_pipelines(backend, n, counters, seed):
                 ok = oks[-1][1][2] if oks else None
                 reason = oks[-1][1][3] if oks else ""
                 rejecting = [p.rsplit(".", 1)[1] for p in pipe if REF[p](raw, cfg, NOW)]
+                if raw["pubkey"] != raw["pubkey"].lower():
+                    # never admissible: not canonical hex; named after the list it would evade when one is configured
+                    low = dict(raw, pubkey=raw["pubkey"].lower())
+                    rejecting = [p.rsplit(".", 1)[1] for p in pipe if REF[p](low, cfg, NOW)] or ["canonical-lower-case-hex"]
+                    pc["respelled_keys"] = pc.get("respelled_keys", 0) + 1
                 pc["events"] = pc.get("events", 0) + 1
                 rp = {"mode": "pipelines", "backend": backend, "chain": chain, "label": lab, "cfg": {k: v for k, v in cfgvals.items() if k != "service_privatekey"}, "event": raw}
                 if rejecting:
